@@ -29,6 +29,7 @@
 #include <fcppt/tuple/map.hpp>
 #include <fcppt/tuple/get.hpp>
 #include <utility>
+#include <variant>
 extern "C" { void vf_mark(void); void vf_trk_copy(int id); void vf_trk_move(int id); void vf_trk_read_moved(int id); void vf_trk_assign_over(int id); }
 template <int Tag> struct trk_t {
   int id; bool moved_from;
@@ -85,6 +86,8 @@ int vf_efrom_opt_r(bool h, int a, int *id){ auto r = e::from_optional(h ? opt{tr
 // ---- variant
 int vf_vmatch_r(bool first, int a, int b){ return fcppt::variant::match(first ? var{trk{a}} : var{b}, [](trk &&t){ trk k{std::move(t)}; return k.get(); }, [](int x){ return x; }); }
 int vf_vtoopt_r(bool first, int a, int b){ auto r = fcppt::variant::to_optional<trk>(first ? var{trk{a}} : var{b}); return idof(r); }
+int vf_vtoopt_l(bool first, int a, int b, int *st){ var x{first ? var{trk{a}} : var{b}}; vf_mark(); auto r = fcppt::variant::to_optional<trk>(x); *st = first ? (std::get<trk>(x.impl()).moved_from ? 2 : 1) : 0; return idof(r); }
+int vf_vmatch_l(bool first, int a, int b, int *st){ var x{first ? var{trk{a}} : var{b}}; vf_mark(); int const r = fcppt::variant::match(x, [](trk const &t){ return t.get(); }, [](int v){ return v; }); *st = first ? (std::get<trk>(x.impl()).moved_from ? 2 : 1) : 0; return r; }
 // ---- fixed-size containers
 void vf_amap_r(int a, int b, int *out){ auto r = fcppt::array::map(fcppt::array::object<trk, 2>{trk{a}, trk{b}}, [](trk &&t){ return trk{std::move(t)}; }); out[0] = fcppt::array::get<0>(r).get(); out[1] = fcppt::array::get<1>(r).get(); }
 void vf_amap_l(int a, int b, int *out, int *st){ fcppt::array::object<trk, 2> x{trk{a}, trk{b}}; vf_mark(); auto r = fcppt::array::map(x, [](trk const &t){ return t.get() + 1000; }); out[0] = fcppt::array::get<0>(r); out[1] = fcppt::array::get<1>(r); st[0] = fcppt::array::get<0>(x).moved_from; st[1] = fcppt::array::get<1>(x).moved_from; }
